@@ -66,6 +66,38 @@ def literal_mixed_modules():
     return out
 
 
+def literal_union_modules():
+    """Literal members INSIDE a union (shared with C01 and C10): each member keeps its own bound -- a value that is == to a literal of another
+    member's type, or of no member's type, is not accepted"""
+    def lit(v):
+        return f"(isinstance(x, {type(v).__name__}) and x == {v!r})"
+    cases = [
+        ("Literal[1] | Literal[2.5]", "(int, float)", lit(1) + " or " + lit(2.5)),
+        ("Literal[2.5] | Literal[1]", "(float, int)", lit(2.5) + " or " + lit(1)),
+        ("Literal[-1] | Dependent[float, positive]", "(int, float)", lit(-1) + " or (isinstance(x, float) and x > 0)"),
+        ("Dependent[float, positive] | Literal[2]", "(float, int)", lit(2) + " or (isinstance(x, float) and x > 0)"),
+        ("Literal[True] | Literal[2]", "(bool, int)", lit(True) + " or " + lit(2)),
+        ("Literal['a'] | Literal[0] | Literal[2.0]", "(str, int, float)", lit("a") + " or " + lit(0) + " or " + lit(2.0)),
+        ("Literal[1] | str", "(int, str)", lit(1) + " or isinstance(x, str)"),
+        ("Literal[1.0] | Literal[2] | Dependent[str, nonempty]", "(float, int, str)", lit(1.0) + " or " + lit(2) + " or (isinstance(x, str) and len(x) > 0)"),
+        # (a union as the BOUND of a value-dependent type, in both spellings; the last one next to an object method of the same priority)
+        ("Dependent[int | str, truthy]", "(int, str)", "isinstance(x, (int, str)) and bool(x)"),
+        ("Dependent[typing.Union[float, str], truthy]", "(float, str)", "isinstance(x, (float, str)) and bool(x)"),
+        ("Dependent[typing.Union[int, str], truthy]", "(int, str)", "isinstance(x, (int, str)) and bool(x)", 0),
+        ("Dependent[float, positive] & Literal[2.0]", "float", "isinstance(x, float) and x == 2.0"),
+    ]
+    pre = ("import typing\n\ndef positive(x):\n    assert isinstance(x, float), x\n    return x > 0\n\ndef nonempty(x):\n    assert isinstance(x, str), x\n    return len(x) > 0\n"
+           "\ndef truthy(x):\n    assert isinstance(x, (int, float, str)), x\n    return bool(x)\n")
+    out = []
+    for i, (ann, bound, pred, *oprio) in enumerate(cases):
+        methods = [dict(kind="ann", ann=ann, bound=bound, prio=0, pred=pred),
+                   dict(kind="static", bound="float", prio=-1), dict(kind="static", bound="object", prio=oprio[0] if oprio else -2)]
+        checks = [("int", "int", None), ("bool", "bool", None)]
+        out.append((f"litunion_{i}", gen.one_position_module(methods, [0, 1, 2, -1, True, False, "a", "", 0.0, 1.0, 2.0, -1.0, 2.5, 0.5, None], checks, prelude=pre),
+                    dict(family="Literal members inside a union", methods=methods)))
+    return out
+
+
 def single_value_literal_module():
     """a single literal value that is not an int / str / float: equal values built at run time are distinct objects (shared with C10)"""
     pre = "from ovld.dependent import StartsWith, EndsWith, Regexp, HasKey, Equals\nfrom fractions import Fraction"
@@ -121,6 +153,7 @@ def gen_harnesses(tier, seed):
         out.append((f"c11_lit_two_positions_{i}", gen.two_position_module(f"x == {a_}", f"x == {b_}", prio, anns=(f"Literal[{a_}]", f"Literal[{b_}]")),
                     dict(family="Literal types at different positions", values=[a_, b_], prio=list(prio))))
     out.extend((f"c11_{n_}", src_, meta_) for n_, src_, meta_ in literal_mixed_modules())
+    out.extend((f"c11_{n_}", src_, meta_) for n_, src_, meta_ in literal_union_modules())
 
     # ---- built-in value types
     def vm(name, anns, sig, build, pre, **kw):
